@@ -44,7 +44,7 @@ fn observe(e: &Engine) -> Vec<String> {
                 let v = e.check_network_request(&r);
                 // the policy is a set of directives (C15)
                 let csp = e.get_csp_directives(&r).map(|p| { let mut d: Vec<String> = p.split(',').map(String::from).collect(); d.sort(); d });
-                out.push(format!("{u} {s} {t}: m={} i={} e={:?} r={:?} rw={:?} csp={:?}", v.matched, v.important, v.exception.is_some(), v.redirect, v.rewritten_url, csp));
+                out.push(format!("{u} {s} {t}: m={} i={} e={:?} r={:?} rw={:?} csp={:?} f={:?}", v.matched, v.important, v.exception.is_some(), v.redirect, v.rewritten_url, csp, v.filter));
             }
         }
     }
